@@ -1,30 +1,4 @@
-mod engine;
-mod refcodec;
-mod c04;
-mod host;
-mod c16;
-mod c16wire;
-mod c18;
-mod c10;
-mod c09;
-mod c14;
-mod hist;
-mod c03;
-mod c08;
-mod c07;
-mod refbmca;
-mod c05;
-mod c06;
-mod c11;
-mod c13;
-mod c15;
-mod c12;
-mod c17;
-mod exporter;
-mod c20;
-mod c19;
-mod c01;
-mod c02;
+use vharness::*;
 
 use engine::Ctx;
 
@@ -85,7 +59,60 @@ fn main() {
     }
     engine::install_panic_hook();
     let code = match (prop.as_str(), &replay) {
+        ("CORPUS", _) => {
+            // seed corpora for the libFuzzer targets, written under /verif/target/fuzz-corpus
+            let base = std::path::PathBuf::from("/verif/target/fuzz-corpus");
+            std::fs::create_dir_all(base.join("codec")).unwrap();
+            std::fs::create_dir_all(base.join("host_ops")).unwrap();
+            for i in 0..400u64 {
+                let mut t = engine::Tape::fresh(ctx.seed ^ 0xc0de, i);
+                let m = refcodec::gen_msg(&mut t);
+                let mut b = vec![1u8, 2, 3];
+                b.extend(m.encode());
+                std::fs::write(base.join("codec").join(format!("m{}", i)), &b).unwrap();
+                let mut t = engine::Tape::fresh(ctx.seed ^ 0xc03, i);
+                let mut out = engine::CaseOut::new();
+                c03::run_history(&mut t, 60, &mut out);
+                let bytes: Vec<u8> = t.recorded().iter().flat_map(|v| [(*v & 0xff) as u8, ((*v >> 8) & 0xff) as u8]).collect();
+                std::fs::write(base.join("host_ops").join(format!("h{}", i)), &bytes).unwrap();
+            }
+            println!("corpora written to {}", base.display());
+            0
+        }
         ("C04", None) => c04::run(&ctx),
+        ("C04", Some(p)) if !p.ends_with(".json") => {
+            // raw libFuzzer artifact of target `codec`: 3 tail bytes + message
+            let data = std::fs::read(p).expect("read artifact");
+            let (tail, msg) = if data.len() > 3 { data.split_at(3) } else { (&[][..], &data[..]) };
+            match c04::check_bytes(msg, tail).violation {
+                Some((sig, d)) => {
+                    println!("VIOLATION property=C04 replay={}\n  signature: {}\n  detail: {}", p, sig, d);
+                    1
+                }
+                None => {
+                    println!("replay passed");
+                    0
+                }
+            }
+        }
+        ("C03", Some(p)) if !p.ends_with(".json") => {
+            // raw libFuzzer artifact of target `host_ops`: 2 bytes per choice
+            let data = std::fs::read(p).expect("read artifact");
+            let mut t = engine::Tape::from_bytes(&data);
+            let mut out = engine::CaseOut::new();
+            c03::run_history(&mut t, 80, &mut out);
+            println!("case: {}", serde_json::to_string(&out.render).unwrap_or_default());
+            match out.violation {
+                Some(v) => {
+                    println!("VIOLATION property=C03 replay={}\n  signature: {}\n  detail: {}", p, v.sig, v.detail);
+                    1
+                }
+                None => {
+                    println!("replay passed");
+                    0
+                }
+            }
+        }
         ("C04", Some(p)) => c04::replay(&ctx, p),
         ("C18", None) => c18::run(&ctx),
         ("C18", Some(p)) => c18::replay(&ctx, p),
